@@ -40,11 +40,21 @@ Reading guide.
 * `specTrace R nrep n loginit V0 trace` : the decidable Spec (also run on the trace of the real class);
   `specFull` adds the replicate-counter clause; `spec_iff` states both declaratively (`TraceSpec`).
 * `levelCopyStart dst i k` : a copy that stops `k` levels down; `shallow_level_counterexample`.
+* `specEvolveCall` / `specResetCall` / `specAdvanceCall` (Model/ProgramOracle.lean) : the COMPLETE Bool oracles
+  the driver evaluates on what was recorded from the real class, one per kind of API call — `specFull` plus
+  the initialisation clause (`initOK`: the initialisation operator runs only when a start container is
+  missing; an EMPTY container `{}` is a given container), the start containers after the call, the logbook's
+  counter and the clock the call leaves behind.  `*_meets_call_spec` are their `spec_sound` theorems,
+  `call_spec_iff` says what they mean.
+* `CallX`, `stepX` : histories that also re-assign `t_cur` / `t_max`, hand over another logbook, or do things
+  that must not matter (`history_with_reassignment_meets_spec`).
 -/
 import PybropsModel.Lemmas.ProgramKeep
 import PybropsModel.Lemmas.ProgramReps
 import PybropsModel.Lemmas.ProgramSpecIff
 import PybropsModel.Lemmas.ProgramScripted
+import PybropsModel.Lemmas.ProgramHistory
+import PybropsModel.Lemmas.ProgramEmptyDemo
 import PybropsModel.Generated.C20Schedule
 set_option autoImplicit false
 set_option linter.unusedSectionVars false
@@ -240,7 +250,7 @@ theorem evolve_again (sc : Schedule) (hwf : WellFormed sc = true) (ops : Ops σ 
     (st : State σ V) (hr : Ready I ops st) (hR : Respects I (startRefs ops st) ops)
     (n : Nat) (hn : effNgen sc cfg = some n) :
     Ready I ops (evolve ops cfg sc st) ∧ startRefs ops (evolve ops cfg sc st) = startRefs ops st := by
-  obtain ⟨s', es0, es1, V0, q, g, _, _, _, _, _, _, _, _, _, _, hS⟩ := evolve_wf (cfg := cfg) sc hwf hr hR n hn
+  obtain ⟨s', es0, es1, V0, q, g, _, _, _, _, _, _, _, _, _, _, hS, _⟩ := evolve_wf (cfg := cfg) sc hwf hr hR n hn
   rw [q]
   exact ⟨(g.ready hS).1, (g.ready hS).2.1⟩
 
@@ -302,6 +312,140 @@ theorem history_meets_spec (sc : Schedule) (hwf : WellFormed sc = true) (hwr : w
   obtain ⟨h1, h2⟩ := history_spec hR hS sc hwf hwr tmax emptyV depth R hRR cs held st g hheld hadm hnone
   exact ⟨h1, h2.startVals, h2.nbad⟩
 
+/-- **`spec_sound` of the COMPLETE run-time oracle of an `evolve` call.**  Besides the call protocol and
+    the replicate counter (`specFull`): the initialisation operator is applied only when a start container
+    is missing (never to five given containers, however empty they are); after the call the start containers
+    hold the initial state; the logbook's counter has advanced by `nrep`; the clock stands one past the last
+    generation (untouched when `nrep = 0`), so that a following `advance` continues the count. -/
+theorem evolve_meets_call_spec (sc : Schedule) (hwf : WellFormed sc = true) (ops : Ops σ V) (cfg : Cfg V)
+    (st : State σ V) (hr : Ready I ops st) (hR : Respects I (startRefs ops st) ops)
+    (n : Nat) (hn : effNgen sc cfg = some n)
+    (R : Item (View V) → Item (View V) → Bool) (hRR : ReflOnRefs R) :
+    specEvolveCall R cfg.nrep n cfg.loginit (startVals cfg.depth st.heap st.start)
+      (newEvents st (evolve ops cfg sc st))
+      (startVals cfg.depth (evolve ops cfg sc st).heap (evolve ops cfg sc st).start)
+      st.rep (evolve ops cfg sc st).rep st.t (evolve ops cfg sc st).t = true :=
+  evolve_call_sound sc hwf hr hR n hn R hRR
+
+/-- **`spec_iff` of the complete oracle**: `specEvolveCall` holds exactly when the trace is the one the
+    property describes (`TraceSpec`, replicate counter), no initialisation event occurs when five containers
+    were given, the start containers afterwards hold the initial state, the logbook's counter has grown by
+    `nrep` and the clock is `ngen + 1` (or untouched for `nrep = 0`). -/
+theorem call_spec_iff (R : Item (View V) → Item (View V) → Bool) (nrep ngen : Nat) (loginit : Bool)
+    (V0given : List (Option (View V))) (trace : List (Event (View V))) (startAfter : List (Option (View V)))
+    (repBefore repAfter : Int) (tBefore tAfter : Nat) :
+    specEvolveCall R nrep ngen loginit V0given trace startAfter repBefore repAfter tBefore tAfter = true ↔
+      (TraceSpec R nrep ngen loginit V0given trace ∧
+        ((specBody loginit trace).map (fun e => e.rep) = [] ∨
+          ∃ r0 : Int, (specBody loginit trace).map (fun e => e.rep) = repsOf r0 loginit ngen nrep)) ∧
+      (V0given.all Option.isSome = true → ∀ e ∈ trace, e.kind ≠ EvKind.init) ∧
+      startAfter = initialState V0given trace ∧
+      repAfter = repBefore + (nrep : Int) ∧
+      tAfter = (if nrep = 0 then tBefore else ngen + 1) := by
+  rw [specEvolveCall_iff, spec_iff]
+  rfl
+
+/-- **Initialise only if needed.**  A programme handed five start containers — EMPTY ones (`{}`) included —
+    is never re-initialised: `evolve` records no initialisation event, every replicate starts from the given
+    state and the start slots keep their references and contents. -/
+theorem evolve_initialises_only_if_needed (sc : Schedule) (hwf : WellFormed sc = true) (ops : Ops σ V) (cfg : Cfg V)
+    (st : State σ V) (hr : Ready I ops st) (hR : Respects I (startRefs ops st) ops)
+    (n : Nat) (hn : effNgen sc cfg = some n) (hall : st.start.all Option.isSome = true) :
+    (∀ e ∈ newEvents st (evolve ops cfg sc st), e.kind ≠ EvKind.init) ∧
+    initialState (startVals cfg.depth st.heap st.start) (newEvents st (evolve ops cfg sc st))
+      = startVals cfg.depth st.heap st.start ∧
+    (evolve ops cfg sc st).start = st.start := by
+  obtain ⟨s', es0, es1, V0, q, _, tr, _, h1, _, _, _, _, hk, _⟩ := evolve_wf (cfg := cfg) sc hwf hr hR n hn
+  have hno : ∀ e ∈ newEvents st (evolve ops cfg sc st), e.kind ≠ EvKind.init := by
+    rw [q, newEvents_of_append tr, (h1 hall).1, List.nil_append]
+    exact fun e he => (hk e he).2
+  exact ⟨hno, initialState_of_not_init _ _ hno, ((evolve_start_intact sc hwf ops cfg st hr hR n hn).2.2 hall).1⟩
+
+/-- **The clock between calls.**  `evolve` leaves the clock one past the last generation of its last
+    replicate (so a following `advance` continues with `ngen + 1, ngen + 2, …`); with `nrep = 0` it does not
+    touch it. -/
+theorem evolve_leaves_clock (sc : Schedule) (hwf : WellFormed sc = true) (ops : Ops σ V) (cfg : Cfg V)
+    (st : State σ V) (hr : Ready I ops st) (hR : Respects I (startRefs ops st) ops)
+    (n : Nat) (hn : effNgen sc cfg = some n) :
+    (evolve ops cfg sc st).t = if cfg.nrep = 0 then st.t else n + 1 := by
+  obtain ⟨s', _, _, _, q, _, _, _, _, _, _, _, _, _, _, _, _, clkp, clk0⟩ := evolve_wf (cfg := cfg) sc hwf hr hR n hn
+  rw [q]
+  rcases Nat.eq_zero_or_pos cfg.nrep with h0 | hpos
+  · rw [if_pos h0]; exact clk0 h0
+  · rw [if_neg (Nat.pos_iff_ne_zero.mp hpos)]; exact clkp hpos
+
+/-- **`spec_sound` of the oracle of a direct `reset()` call** (`specResetCall`: working containers equal
+    the initial state, clock 0, start containers untouched) -/
+theorem reset_meets_call_spec (sc : Schedule) (hwr : wfReset sc = true) (ops : Ops σ V) (cfg : Cfg V)
+    (S : List Ref) (V0 : List (Option (View V))) (hS : S.length = 5) (hR : Respects I S ops) (st : State σ V)
+    (g : Good I cfg.depth S V0 st) :
+    specResetCall V0 (startVals cfg.depth (resetCall ops cfg sc st).heap (five.map (resetCall ops cfg sc st).regs))
+      (resetCall ops cfg sc st).t
+      (startVals cfg.depth (resetCall ops cfg sc st).heap (resetCall ops cfg sc st).start) = true :=
+  (reset_call_sound hS hR sc hwr g).1
+
+/-- **`spec_sound` of the oracle of a direct `advance(ngen)` call** (`specAdvanceCall`: the generations
+    from the current clock, start containers untouched, clock left at `t + ngen`) -/
+theorem advance_meets_call_spec (sc : Schedule) (hwf : WellFormed sc = true) (ops : Ops σ V) (cfg : Cfg V)
+    (n : Nat) (hn : cfg.ngen = some n)
+    (S : List Ref) (V0 : List (Option (View V))) (hS : S.length = 5) (hR : Respects I S ops) (st : State σ V)
+    (g : Good I cfg.depth S V0 st) (cur : List Ref) (hcur : five.map st.regs = cur.map some) (hl : cur.length = 5)
+    (R : Item (View V) → Item (View V) → Bool) (hRR : ReflOnRefs R) :
+    specAdvanceCall R n st.t V0 (items cur (vals cfg.depth st.heap cur)) (newEvents st (advanceCall ops cfg sc st))
+      (startVals cfg.depth (advanceCall ops cfg sc st).heap (advanceCall ops cfg sc st).start)
+      (advanceCall ops cfg sc st).t = true :=
+  (advance_call_sound hS hR sc hwf n hn g cur hcur hl R hRR).1
+
+/-- **`spec_iff` of the oracles of direct `reset()` / `advance(ngen)` calls**: `specResetCall` says "five
+    working containers equal to the initial state, clock 0, start containers untouched"; `specAdvanceCall`
+    says "the trace is exactly `ngen` generations (`IsGens`: pselect·log·mate·log·evaluate·log·sselect·log,
+    every call handed what its predecessor returned, start containers holding `V0`) at clocks `t0, t0+1, …`
+    starting from the containers held, start containers untouched afterwards, clock left at `t0 + ngen`". -/
+theorem direct_call_spec_iff (R : Item (View V) → Item (View V) → Bool) (ngen t0 : Nat)
+    (V0 work : List (Option (View V))) (cur : List (Item (View V))) (trace : List (Event (View V)))
+    (startAfter : List (Option (View V))) (tAfter : Nat) :
+    (specResetCall V0 work tAfter startAfter = true ↔
+      work = V0 ∧ tAfter = 0 ∧ startAfter = V0 ∧ V0.length = 5 ∧ V0.all Option.isSome = true) ∧
+    (specAdvanceCall R ngen t0 V0 cur trace startAfter tAfter = true ↔
+      IsGens R V0 ngen t0 cur trace ∧ startAfter = V0 ∧ tAfter = t0 + ngen) := by
+  refine ⟨specResetCall_iff _ _ _ _, ?_⟩
+  rw [specAdvanceCall_iff]
+  have : specAdvance R ngen t0 V0 cur trace = true ↔ IsGens R V0 ngen t0 cur trace := by
+    unfold specAdvance
+    constructor
+    · intro h
+      split at h
+      · rename_i hc
+        obtain ⟨gs, hgs, hg⟩ := (checkGens_iff R V0 ngen t0 cur trace []).mp hc
+        rw [List.append_nil] at hgs
+        rw [hgs]; exact hg
+      · cases h
+    · intro h
+      have := (checkGens_iff R V0 ngen t0 cur trace []).mpr ⟨trace, by simp, h⟩
+      rw [this]
+  rw [this]
+
+/-- **Histories with attribute re-assignment, several logbooks and irrelevant events.**  From a state
+    satisfying the invariant, every history of `evolve` / `reset` / `advance` calls, assignments
+    `prog.t_cur = n` and `prog.t_max = n`, changes of the logbook handed to the calls (each with its own
+    replicate counter) and events that must not matter (an operator replaced by an equivalent instance,
+    another programme object being run), in which `advance` is only called while working containers exist,
+    meets the COMPLETE oracle call by call: `evolve(ngen = None)` runs the `t_max` in force at that call, every
+    call starts from the clock and the counter it finds, the quiet events change neither trace nor containers —
+    and the start containers hold `V0` at the end. -/
+theorem history_with_reassignment_meets_spec (sc : Schedule) (hwf : WellFormed sc = true)
+    (hwr : wfReset sc = true) (hH : HandlesNone sc = true)
+    (ops : Ops σ V) (emptyV : V) (depth : Nat) (S : List Ref) (V0 : List (Option (View V)))
+    (hS : S.length = 5) (hR : Respects I S ops) (R : Item (View V) → Item (View V) → Bool) (hRR : ReflOnRefs R)
+    (cs : List CallX) (held : Bool) (p : Prog σ V) (g : Good I depth S V0 p.st)
+    (hheld : held = true → ∃ cur : List Ref, five.map p.st.regs = cur.map some ∧ cur.length = 5)
+    (hadm : admissibleX cs held = true) :
+    histOKX R ops sc emptyV depth V0 cs p ∧
+      startVals depth (runX ops emptyV depth sc cs p).st.heap (runX ops emptyV depth sc cs p).st.start = V0 ∧
+      (runX ops emptyV depth sc cs p).st.bad = false := by
+  obtain ⟨h1, h2⟩ := historyX_spec hR hS sc hwf hwr hH emptyV depth R hRR cs held p g hheld hadm
+  exact ⟨h1, h2.startVals, h2.nbad⟩
+
 /-- the classical frame condition ("operators and logbook mutate only what they are handed, and
     allocate") is sufficient: it implies `Respects` for any start containers -/
 theorem evolve_meets_spec_of_frame (sc : Schedule) (hwf : WellFormed sc = true) (ops : Ops σ V)
@@ -354,6 +498,21 @@ theorem current_source_meets_spec (ops : Ops σ V) (cfg : Cfg V) (st : State σ 
    (evolve_start_intact _ schedule_wellformed ops cfg st hr hR _ he).1,
    (evolve_start_intact _ schedule_wellformed ops cfg st hr hR _ he).2.1⟩
 
+/-- **Instance for the current source, complete oracle.**  For the schedule regenerated from `/repo`, all
+    operators respecting the start containers, all counts (`ngen = None` included) and all initial states
+    (empty containers included), every `evolve` call satisfies the complete run-time oracle `specEvolveCall`:
+    call protocol, replicate counter, initialise-only-if-needed, start containers afterwards, logbook counter,
+    clock. -/
+theorem current_source_meets_call_spec (ops : Ops σ V) (cfg : Cfg V) (st : State σ V) (hr : Ready I ops st)
+    (hR : Respects I (startRefs ops st) ops) :
+    specEvolveCall sameRef cfg.nrep (cfg.ngen.getD cfg.tmax) cfg.loginit (startVals cfg.depth st.heap st.start)
+      (newEvents st (evolve ops cfg C20Schedule.evolve st))
+      (startVals cfg.depth (evolve ops cfg C20Schedule.evolve st).heap (evolve ops cfg C20Schedule.evolve st).start)
+      st.rep (evolve ops cfg C20Schedule.evolve st).rep st.t (evolve ops cfg C20Schedule.evolve st).t = true :=
+  have he : effNgen C20Schedule.evolve cfg = some (cfg.ngen.getD cfg.tmax) := by
+    simp [effNgen, schedule_handles_none]
+  evolve_meets_call_spec _ schedule_wellformed ops cfg st hr hR _ he sameRef sameRef_refl
+
 /-- **Instance for the current source, operators that keep what they are handed.**  The schedule
     regenerated from `/repo` meets the complete Spec, does not raise and keeps its start slots for all
     operators satisfying the footprint condition — free to mutate later anything they were ever handed —
@@ -388,6 +547,17 @@ theorem driver_operators_meet_spec (sc : Schedule) (hwf : WellFormed sc = true) 
     (evolve Drv.C20.scripted cfg sc st).start = (startRefs Drv.C20.scripted st).map some :=
   have h := evolve_meets_spec_of_footprint sc hwf Drv.C20.scripted _ scripted_footprint cfg st hr n hn
   ⟨h.1, h.2.1, h.2.2.1⟩
+
+/-- … and they meet the COMPLETE oracle the driver evaluates (`specEvolveCall`), for every script -/
+theorem driver_operators_meet_call_spec (sc : Schedule) (hwf : WellFormed sc = true) (cfg : Cfg Drv.C20.D)
+    (st : State Drv.C20.OSt Drv.C20.D)
+    (hr : Ready (KeptOutside (fun s : Drv.C20.OSt => s.seen) (startRefs Drv.C20.scripted st)) Drv.C20.scripted st)
+    (n : Nat) (hn : effNgen sc cfg = some n) :
+    specEvolveCall sameRef cfg.nrep n cfg.loginit (startVals cfg.depth st.heap st.start)
+      (newEvents st (evolve Drv.C20.scripted cfg sc st))
+      (startVals cfg.depth (evolve Drv.C20.scripted cfg sc st).heap (evolve Drv.C20.scripted cfg sc st).start)
+      st.rep (evolve Drv.C20.scripted cfg sc st).rep st.t (evolve Drv.C20.scripted cfg sc st).t = true :=
+  evolve_meets_call_spec sc hwf Drv.C20.scripted cfg st hr (scripted_footprint.respects _) n hn sameRef sameRef_refl
 
 /-! ### non-vacuity: concrete operators, states, schedules and runs -/
 section examples
@@ -515,6 +685,56 @@ example : specTrace sameRef 2 2 true (startVals 2 given.heap given.start)
     (newEvents given (evolve demoOps ⟨2, none, 2, true, 0, 2⟩ C20Schedule.evolve given)) = true :=
   (current_source_meets_spec demoOps ⟨2, none, 2, true, 0, 2⟩ given (given_ready _) (demo_respects _)).1
 
+/-- EMPTY given containers (`{}`) are given containers: a programme state whose `start_pheno` and `start_gmod`
+    are empty satisfies `Ready`; the run on the schedule of the current source meets the COMPLETE oracle
+    (by the theorem, and by running the model), records no initialisation event and 18 calls -/
+example : Ready (NoKept [0, 1, 2, 3, 4]) demoOps emptyGiven := emptyGiven_ready demoOps
+example : specEvolveCall sameRef 2 1 true (startVals 2 emptyGiven.heap emptyGiven.start)
+    (newEvents emptyGiven (evolve demoOps ⟨2, some 1, 9, true, 0, 2⟩ C20Schedule.evolve emptyGiven))
+    (startVals 2 (evolve demoOps ⟨2, some 1, 9, true, 0, 2⟩ C20Schedule.evolve emptyGiven).heap
+      (evolve demoOps ⟨2, some 1, 9, true, 0, 2⟩ C20Schedule.evolve emptyGiven).start)
+    3 (evolve demoOps ⟨2, some 1, 9, true, 0, 2⟩ C20Schedule.evolve emptyGiven).rep
+    0 (evolve demoOps ⟨2, some 1, 9, true, 0, 2⟩ C20Schedule.evolve emptyGiven).t = true :=
+  evolve_meets_call_spec _ schedule_wellformed demoOps ⟨2, some 1, 9, true, 0, 2⟩ emptyGiven (emptyGiven_ready _)
+    (by rw [show startRefs demoOps emptyGiven = [0, 1, 2, 3, 4] from by simp [startRefs, emptyGiven]]; exact demo_respects _)
+    1 rfl sameRef sameRef_refl
+example : (evolve demoOps ⟨2, some 1, 9, true, 0, 2⟩ C20Schedule.evolve emptyGiven).trace.length = 20 ∧
+    (evolve demoOps ⟨2, some 1, 9, true, 0, 2⟩ C20Schedule.evolve emptyGiven).rep = 5 ∧
+    (evolve demoOps ⟨2, some 1, 9, true, 0, 2⟩ C20Schedule.evolve emptyGiven).t = 2 ∧
+    (evolve demoOps ⟨2, some 1, 9, true, 0, 2⟩ C20Schedule.evolve emptyGiven).trace.all
+      (fun e => !(e.kind == EvKind.init)) = true := by decide +kernel
+
+/-- … the same state meets the hypothesis of `evolve_initialises_only_if_needed` (five given containers),
+    and the concrete driver state meets those of `driver_operators_meet_call_spec` -/
+example : emptyGiven.start.all Option.isSome = true := by decide
+example : specEvolveCall sameRef 2 1 true (startVals 5 drvState.heap drvState.start)
+    (newEvents drvState (evolve Drv.C20.scripted ⟨2, some 1, 9, true, Drv.C20.dictD, 5⟩ C20Schedule.evolve drvState))
+    (startVals 5 (evolve Drv.C20.scripted ⟨2, some 1, 9, true, Drv.C20.dictD, 5⟩ C20Schedule.evolve drvState).heap
+      (evolve Drv.C20.scripted ⟨2, some 1, 9, true, Drv.C20.dictD, 5⟩ C20Schedule.evolve drvState).start)
+    drvState.rep (evolve Drv.C20.scripted ⟨2, some 1, 9, true, Drv.C20.dictD, 5⟩ C20Schedule.evolve drvState).rep
+    drvState.t (evolve Drv.C20.scripted ⟨2, some 1, 9, true, Drv.C20.dictD, 5⟩ C20Schedule.evolve drvState).t = true :=
+  driver_operators_meet_call_spec _ schedule_wellformed ⟨2, some 1, 9, true, Drv.C20.dictD, 5⟩ drvState drv_ready 1 rfl
+
+/-- the initialisation clause is not vacuous: a trace that begins with an initialisation event (the run of
+    the programme that lacks a container) is rejected when five containers were given, and accepted for the
+    programme that lacked one -/
+example : initOK (startVals 2 given.heap given.start)
+    (evolve demoOps ⟨2, some 1, 9, false, 0, 2⟩ C20Schedule.evolve partly).trace = false := by decide +kernel
+example : initOK (startVals 2 partly.heap partly.start)
+    (evolve demoOps ⟨2, some 1, 9, false, 0, 2⟩ C20Schedule.evolve partly).trace = true := by decide +kernel
+
+/-- a concrete admissible history with re-assignments on a programme created with `t_max = 9`:
+    `t_max := 1`, evolve(2, None) (one generation per replicate), clock set to 7, advance 2 (clocks 7, 8),
+    another logbook (counter 40), evolve(1, 1), a quiet event, reset, advance 1 -/
+example : admissibleX [.setTmax 1, .evolve 2 none true, .setT 7, .advance 2, .setBook 40, .evolve 1 (some 1) false,
+    .noop, .reset, .advance 1] false = true := by decide
+example : (runX demoOps 0 2 C20Schedule.evolve [.setTmax 1, .evolve 2 none true, .setT 7, .advance 2, .setBook 40,
+    .evolve 1 (some 1) false, .noop, .reset, .advance 1] ⟨9, given⟩).st.trace.length = 20 + 16 + 9 + 8 ∧
+    (runX demoOps 0 2 C20Schedule.evolve [.setTmax 1, .evolve 2 none true, .setT 7, .advance 2, .setBook 40,
+    .evolve 1 (some 1) false, .noop, .reset, .advance 1] ⟨9, given⟩).st.rep = 41 ∧
+    (runX demoOps 0 2 C20Schedule.evolve [.setTmax 1, .evolve 2 none true, .setT 7, .advance 2, .setBook 40,
+    .evolve 1 (some 1) false, .noop, .reset, .advance 1] ⟨9, given⟩).st.t = 1 := by decide +kernel
+
 /-- the Spec is not vacuous: it rejects the trace of a schedule whose `advance` forgets the clock -/
 example : specTrace sameOrEqual 2 2 true (startVals 2 given.heap given.start)
     (evolve demoOps ⟨2, some 2, 9, true, 0, 2⟩
@@ -533,6 +753,34 @@ theorem evolve_ngen_none_prerepair_counterexample :
     specTrace sameOrEqual 1 2 true (startVals 2 Program.Demo.given.heap Program.Demo.given.start)
       (evolve Program.Demo.demoOps ⟨1, none, 2, true, 0, 2⟩ canonical Program.Demo.given).trace = false := by
   decide +kernel
+
+/-- **An empty container is not a missing container.**  If `is_initialized()` tested the TRUTH VALUE of the
+    five start containers (`truthyInit`) instead of `is not None`, a programme handed an initial state with
+    an empty `start_gmod = {}` would be re-initialised by `evolve`: the run records an initialisation event
+    although five containers were given (the initialisation clause of the oracle fails), every replicate
+    starts from what the initialisation operator returned, and the stored initial state is replaced.  With
+    five non-empty containers the two tests agree. -/
+theorem truthiness_initialisation_counterexample :
+    initOK (startVals 2 Program.Demo.emptyGiven.heap Program.Demo.emptyGiven.start)
+      (evolve Program.Demo.demoOps ⟨2, some 1, 9, true, 0, 2⟩ canonical
+        (Program.Demo.truthyInit Program.Demo.emptyGiven)).trace = false ∧
+    specTrace sameOrEqual 2 1 true (startVals 2 Program.Demo.emptyGiven.heap Program.Demo.emptyGiven.start)
+      (evolve Program.Demo.demoOps ⟨2, some 1, 9, true, 0, 2⟩ canonical
+        (Program.Demo.truthyInit Program.Demo.emptyGiven)).trace = true ∧
+    startVals 2 (evolve Program.Demo.demoOps ⟨2, some 1, 9, true, 0, 2⟩ canonical
+        (Program.Demo.truthyInit Program.Demo.emptyGiven)).heap
+      (evolve Program.Demo.demoOps ⟨2, some 1, 9, true, 0, 2⟩ canonical
+        (Program.Demo.truthyInit Program.Demo.emptyGiven)).start
+      ≠ startVals 2 Program.Demo.emptyGiven.heap Program.Demo.emptyGiven.start ∧
+    initOK (startVals 2 Program.Demo.emptyGiven.heap Program.Demo.emptyGiven.start)
+      (evolve Program.Demo.demoOps ⟨2, some 1, 9, true, 0, 2⟩ canonical Program.Demo.emptyGiven).trace = true ∧
+    (Program.Demo.truthyInit Program.Demo.given).start = Program.Demo.given.start := by
+  refine ⟨?_, ?_, ?_, ?_, ?_⟩
+  · decide +kernel
+  · decide +kernel
+  · decide +kernel
+  · decide +kernel
+  · decide +kernel
 
 /-- **The frame condition cannot be dropped.**  An operator that overwrites a cell of a stored start
     container although it is handed nothing (`rogueOps` writes cell 0) violates `Respects`, and the run
